@@ -189,6 +189,8 @@ class Interp:
             return
         if goal is False:
             goal = z3.BoolVal(False)
+        kw.setdefault("info", {})
+        kw["info"] = dict(kw["info"], state=_Snap(st))
         self.obligations.append(Obligation(name, st.pc, goal, **kw))
 
     # -------------------------------------------------------------- truthiness
@@ -1102,11 +1104,10 @@ class Interp:
             return
         if c.inline:
             self.inlined.add(c.key)
-            if self.depth > 12:
+            if len(st.frames) > 12:
                 raise Unsupported("inline depth exceeded")
             fnode = find_def(*c.src)
-            self.depth += 1
-            try:
+            if True:
                 st.frames.append(st.env)
                 st.env = dict(bound)
                 for st2, flow in self.exec_block(fnode.body, st):
@@ -1119,8 +1120,6 @@ class Interp:
                         yield st2, None
                     else:
                         raise GuardFailure("break/continue escaped a function body")
-            finally:
-                self.depth -= 1
             return
         # summary: assert pre, havoc frame, assume post
         self.summarised.add(c.key)
@@ -1263,7 +1262,7 @@ class Interp:
 
     def assign(self, tgt, v, st):
         if isinstance(tgt, ast.Name):
-            lk = getattr(self.cur_contract, "local_kinds", None) if self.depth == 0 else None
+            lk = getattr(self.cur_contract, "local_kinds", None) if not st.frames else None
             if lk and tgt.id in lk and isinstance(v, list):
                 # a local list of symbolic length: content arrays + definitional prefix sums
                 v = LstObj(self.as_seq(v, st, kinds=lk[tgt.id]).with_psums(st, tgt.id + ".ps"))
@@ -1616,6 +1615,17 @@ class Interp:
             if flow.kind == "next":
                 flow = Flow("return", None)
             yield st1, flow
+
+
+class _Snap:
+    """What witness extraction may look at: the top-level environment and ghost state of the path that
+    generated an obligation (the State object itself keeps mutating as execution continues)."""
+
+    def __init__(self, st):
+        self.env = st.frames[0] if st.frames else st.env
+        self.ghost = st.ghost
+        self.heap = dict(st.heap)
+        self.boxes = dict(st.boxes)
 
 
 class OptReal:
